@@ -247,7 +247,7 @@ def hygiene():
     return bad
 
 
-def build_ocaml(name, extract_v, driver_ml, modname):
+def build_ocaml(name, extract_v, driver_ml, modname, includes=()):
     """Extract (coqc on Extract/<extract_v>) and build ocaml/<driver_ml>; cached by content hash of the
     .vo files it depends on.  Returns (ok, path-to-binary, output)."""
     out_dir = os.path.join(BUILD, "ocaml", name)
@@ -259,6 +259,8 @@ def build_ocaml(name, extract_v, driver_ml, modname):
             if f.endswith(".v"):
                 h.update(open(os.path.join(root, f), "rb").read())
     h.update(open(os.path.join(VERIF, "ocaml", driver_ml), "rb").read())
+    for inc in includes:
+        h.update(open(os.path.join(VERIF, "ocaml", inc), "rb").read())
     stamp = os.path.join(out_dir, "stamp")
     if os.path.exists(exe) and os.path.exists(stamp) and open(stamp).read() == h.hexdigest():
         return True, exe, "cached"
@@ -269,8 +271,14 @@ def build_ocaml(name, extract_v, driver_ml, modname):
             return False, exe, out
         import shutil
         shutil.copy(os.path.join(VERIF, "ocaml", driver_ml), os.path.join(out_dir, driver_ml))
-        rc, out2 = run(["ocamlfind", "ocamlopt", "-O3", "-w", "-a", modname + ".mli", modname + ".ml", driver_ml,
-                        "-o", exe], cwd=out_dir, timeout=900)
+        inc_files = []
+        for inc in includes:
+            # shared OCaml sources are included textually after `open <ExtractedModule>`
+            txt = "open %s\n" % (modname[0].upper() + modname[1:]) + open(os.path.join(VERIF, "ocaml", inc)).read()
+            open(os.path.join(out_dir, inc), "w").write(txt)
+            inc_files.append(inc)
+        rc, out2 = run(["ocamlfind", "ocamlopt", "-O3", "-w", "-a", modname + ".mli", modname + ".ml"] + inc_files +
+                       [driver_ml, "-o", exe], cwd=out_dir, timeout=900)
         if rc != 0:
             return False, exe, out + out2
         open(stamp, "w").write(h.hexdigest())
